@@ -87,7 +87,8 @@ CHECKS = {
         category="model_checking",
         technique="Pool.tla (population by rejection sampling, three modes) model checked by TLC; population batches "
                   "(guarded hooks: weights, uniforms, acceptance mask), pools, draws and likelihood calls of real runs "
-                  "validated by TLC against TraceNestedSampler.tla",
+                  "validated by TLC against TraceNestedSampler.tla; LatentBall.tla (radial rule of the uniform n-ball "
+                  "candidate draw) enumerated by TLC and replayed through the real draw_nsphere with scripted uniforms",
         text="Every pool of every real run is checked for bounds, prior and likelihood equal to the model's, size, each "
              "index handed out once, rejected draws unacceptable, the latent contour, and the likelihood never being "
              "called outside the support; through the guarded hooks every rejection-sampling batch must satisfy "
